@@ -220,3 +220,50 @@ def _(vc):
     vc.run_loop_body(f"{PP}:ParameterAddressBook.lookup", loc, vc.new(f"{GM}:AddressBookEntry", node, [], []))
     ys = list(vc.last_yields)
     vc.ensure("nodes_without_inputs_get_no_operand", len(ys) == 1 and ys[0][0] is node and ys[0][1] == ())
+
+
+# ------------------------------------------------------------------------------------------------ the address book as a container
+for _n in (1, 2, 3):
+    def _h(vc, _n=_n):
+        """AddressBook.__init__ / __iter__ / __len__ / num_outputs: iterating the book yields, in order, entries with exactly the module, the input
+        module ids and the index objects it was built from (index tensors are stored as buffers, shortcuts as plain attributes)"""
+        mods = [Opaque(f"m{i}") for i in range(_n)]
+        F = vc.int("F", lo=1)
+        entries, idxs = [], []
+        for i, m in enumerate(mods):
+            if i == 0:
+                ids, ix = [], []
+            elif i == 1:
+                ids, ix = [[0]], [vc.tensor("idx1", (F, 2), "long")]
+            else:
+                ids, ix = [[0, 1]], [(None,)]
+            idxs.append(ix)
+            entries.append(vc.new(f"{GM}:AddressBookEntry", m, ids, ix))
+        No = vc.int("num_outputs", lo=1)
+        out_idx = vc.tensor("out_idx", (No,), "long")
+        entries.append(vc.new(f"{GM}:AddressBookEntry", None, [[_n - 1]], [out_idx]))
+        book = vc.new(f"{CI}:LayerAddressBook", list(entries))
+        got = list(vc.I.B.iterate(vc.I, book))
+        vc.ensure("one_entry_per_given_entry", len(got) == _n + 1 and vc.must(to_z3(vc.call((book, "__len__"))) == _n + 1))
+        if len(got) != _n + 1:
+            return
+        for i, (g, e) in enumerate(zip(got, entries)):
+            vc.ensure(f"entry{i}.same_module", g.fields["module"] is e.fields["module"])
+            vc.ensure(f"entry{i}.same_input_module_ids", [list(x) for x in g.fields["in_module_ids"]] == [list(x) for x in e.fields["in_module_ids"]])
+            gi, ei = list(g.fields["in_fold_idx"]), list(e.fields["in_fold_idx"])
+            same = lambda a, b: (a is b) or (isinstance(a, (tuple, list)) and isinstance(b, (tuple, list)) and len(a) == len(b) and all(same(x, y) for x, y in zip(a, b))) or \
+                (isinstance(a, slice) and isinstance(b, slice) and (a.start, a.stop, a.step) == (b.start, b.stop, b.step))
+            if not (len(gi) == len(ei) and all(same(a, b) for a, b in zip(gi, ei))):
+                print("DEBUG", i, gi, ei)
+            vc.ensure(f"entry{i}.same_index_objects", len(gi) == len(ei) and all(same(a, b) for a, b in zip(gi, ei)))
+        vc.ensure("number_of_outputs_is_the_length_of_the_output_index", vc.must(to_z3(vc.attr(book, "num_outputs")) == No))
+    obligation(f"C01.address_book.container.entries{_n}", "C01", [f"{GM}:AddressBook.__init__", f"{GM}:AddressBook.__iter__"])(_h)
+
+
+@obligation("C01.address_book.container.refusals", "C01", [f"{GM}:AddressBook.__init__"])
+def _(vc):
+    exc, _ = vc.raises(lambda: vc.new(f"{CI}:LayerAddressBook", []))
+    vc.ensure("empty_book_refused", exc == "ValueError")
+    e = vc.new(f"{GM}:AddressBookEntry", Opaque("m"), [], [])
+    exc, _ = vc.raises(lambda: vc.new(f"{CI}:LayerAddressBook", [e]))
+    vc.ensure("last_entry_must_be_the_output_entry", exc == "ValueError")
